@@ -7,6 +7,7 @@ R06-swallow places where a Result<_, ParserError> is not propagated belong to th
 R06-class   channel and conditions of every diagnostic site of the parser equal the reviewed table
 R06-loc     diagnostics take their line from last_token_position and their file from filenames[<context|token>.fileid]
 R06-order   a diagnostic is constructed before the function consumes further tokens (so it carries the line of the offending token)
+R06-peek    a diagnostic about a token that was only peeked at is constructed after the token was consumed (last_token_position)
 """
 import json
 import os
@@ -422,5 +423,35 @@ def run(chk):
                 if not any((cn + "(") in g for g in gs):
                     chk.add(Finding("R06-order", "R06-order::%s::%s::%s" % (mir.strip_generics(fid), nm.split("::")[-1], cn), "%s constructs the diagnostic %s after %s consumed another token, and not because of that token: the diagnostic carries the line of a later token, not of the token at which the problem was detected" % (fid, nm.split("::")[-1], cn), b.where(t["ln"])))
     chk.rule("R06-order", "diagnostic constructors checked against dominating token-consuming calls", nord, floor=14)
+
+    # ------------------------------------------------------------------ R06-peek
+    # the dual of R06-order: last_token_position (R06-loc: the only source of a diagnostic's line) is advanced by the consuming
+    # calls only, never by peek_token.  A diagnostic about a token that was merely *peeked* therefore has to be constructed after
+    # that token was consumed, or it carries the line of the token before it (seed C06s: the constructor call hoisted above
+    # get_identifier in get_string)
+    npeek = 0
+    for fid in sorted(scope):
+        b = prog.bodies[fid]
+        if b.file not in ("a2lfile/src/parser.rs", "a2lfile/src/ifdata.rs", "a2lfile/src/lib.rs"):
+            continue
+        calls = list(b.calls())
+        peeks = [(bi, t) for bi, t in calls if re.search(r"ParserState::peek_token$", mir.strip_generics((t.get("res") or "").lstrip("?"))) and t["t"] is not None]
+        if not peeks:
+            continue
+        cons = [(bi, t) for bi, t in calls if CONSUMERS.search(mir.strip_generics((t.get("res") or "").lstrip("?"))) and t["t"] is not None]
+        for bi, t in calls:
+            nm = mir.strip_generics((t.get("res") or "").lstrip("?"))
+            if not re.search(r"parser::ParserError::[a-z_]+$", nm):
+                continue
+            cb = prog.bodies.get((t.get("res") or "").lstrip("?")) or next((x for x in prog.bodies.values() if mir.strip_generics(x.id) == nm), None)
+            if cb is None or not any("A2lToken" in l["ty"] and "Type" not in l["ty"] for l in cb.locals[1:1 + cb.argc]):
+                continue        # the diagnostic is not about a token (unexpected_eof, ...)
+            for pj, tp in peeks:
+                if not b.dominates(tp["t"], bi):
+                    continue
+                npeek += 1
+                if not any(b.dominates(tp["t"], bj) and b.dominates(tj["t"], bi) for bj, tj in cons):
+                    chk.add(Finding("R06-peek", "R06-peek::%s::%s" % (mir.strip_generics(fid), nm.split("::")[-1]), "%s constructs the diagnostic %s for a token it has only peeked at; no consuming call lies between peek_token and the constructor, so last_token_position still is the line of the previous token" % (fid, nm.split("::")[-1]), b.where(t["ln"])))
+    chk.rule("R06-peek", "diagnostics about a peeked token are constructed after the token was consumed", npeek, floor=1)
     chk.assumptions += ["not decided: model equality between the modes (follows from R06-single only together with run-time determinism)",
                         "oracle/diag_table.json (section parser) and oracle/swallow_sites.json are reviewed snapshots of semantic facts"]
